@@ -262,7 +262,8 @@ def assigned_names(stmts):
     names = set()
     for st in stmts:
         for n in walk_no_nested(st):
-            if isinstance(n, ast.Name) and isinstance(n.ctx, (ast.Store, ast.Del)):
+            if isinstance(n, ast.Name) and isinstance(n.ctx, (ast.Store, ast.Del, ast.Load)) and (
+                    isinstance(n.ctx, (ast.Store, ast.Del)) or isinstance(st, ast.Expr)):
                 names.add(n.id)
             elif isinstance(n, ast.FunctionDef):
                 names.add(n.name)
@@ -767,11 +768,24 @@ class Interp:
                     break
             return
         ordinal = self.next_loop_ordinal(f)
-        seg = self.exec_sym_loop(coll, lambda x, e: self.assign(st.target, x, e, f),
-                                 lambda e: self.exec_block(st.body, e, f), st.body, env, f, ordinal,
-                                 collect=self.frames[-1].out is not None)
-        if seg is not None:
-            self.frames[-1].out.emit_seq(seg)
+        segs = coll if kind == "segments" else [coll]
+        for sg in segs:
+            if isinstance(sg, list):
+                for x in sg:
+                    self.assign(st.target, x, env, f)
+                    try:
+                        self.exec_block(st.body, env, f)
+                    except ContinueSig:
+                        continue
+                    except BreakSig:
+                        raise Unsupported("break in a loop over mixed concrete/symbolic segments")
+                continue
+            seg = self.exec_sym_loop(sg, lambda x, e: self.assign(st.target, x, e, f),
+                                     lambda e: self.exec_block(st.body, e, f), st.body, env, f, ordinal,
+                                     collect=self.frames[-1].out is not None,
+                                     targets=assigned_names([ast.Expr(st.target)]))
+            if seg is not None:
+                self.frames[-1].out.emit_seq(seg)
 
     def next_loop_ordinal(self, f):
         key = self.qualname(f)
@@ -781,11 +795,11 @@ class Interp:
 
     # -- the symbolic loop rule ---------------------------------------------------------------
     def exec_sym_loop(self, coll, bind_target, run_body, body_stmts, env, f, ordinal, collect=True,
-                      yield_expr=None):
+                      yield_expr=None, targets=()):
         """Loop over a symbolic sequence `coll` (core.Seq).  The body is executed for one
         arbitrary index k.  Returns the Seq of values yielded by the loop (or None)."""
         from .loops import run_symbolic_loop
-        return run_symbolic_loop(self, coll, bind_target, run_body, body_stmts, env, f, ordinal, collect)
+        return run_symbolic_loop(self, coll, bind_target, run_body, body_stmts, env, f, ordinal, collect, targets)
 
     # -- expressions -----------------------------------------------------------------------
     def eval(self, node, env, module, owner=None, closure=None):
@@ -951,6 +965,13 @@ class Interp:
         if kind == "concrete":
             for x in coll:
                 out.emit(x)
+        elif kind == "segments":
+            for sg in coll:
+                if isinstance(sg, list):
+                    for x in sg:
+                        out.emit(x)
+                else:
+                    out.emit_seq(sg)
         else:
             out.emit_seq(coll)
         return None
@@ -1022,10 +1043,17 @@ class Interp:
                 body(env)
             return
         ordinal = ("comp", getattr(g.iter, "lineno", 0), getattr(g.iter, "col_offset", 0))
-        seg = self.exec_sym_loop(coll, lambda x, e: self.assign(g.target, x, e, f), body, [], env, f,
-                                 ordinal, collect=True)
-        if seg is not None:
-            out.emit_seq(seg)
+        segs = coll if kind == "segments" else [coll]
+        for sg in segs:
+            if isinstance(sg, list):
+                for x in sg:
+                    self.assign(g.target, x, env, f)
+                    body(env)
+                continue
+            seg = self.exec_sym_loop(sg, lambda x, e: self.assign(g.target, x, e, f), body, [], env, f,
+                                     ordinal, collect=True)
+            if seg is not None:
+                out.emit_seq(seg)
 
 
 def _as_load(t):
